@@ -112,6 +112,15 @@ CHECKS["C14"] = (
     "DESIGN.md section 3, C14",
 )
 
+CHECKS["C10"] = (
+    "exhaustive exploration of (hash seed x call history x operation) in fresh interpreters, histories as a fork tree; digest comparison",
+    "For every PYTHONHASHSEED in a range (16 quick / 48 thorough, plus a VERIF_SEED block) a fresh interpreter explores every call history "
+    "of length <= 1 (thorough 2) over 18 operations as a fork tree and the output digest of every operation is compared with the "
+    "reference run (seed 0, empty history); the check also measures how many distinct set-iteration orders the explored seeds produced.",
+    "hash seeds are a sampled range (coverage of iteration orders is measured); os.listdir order is not varied",
+    "DESIGN.md section 3, C10",
+)
+
 PENDING_REASON = "check not built yet in this revision (planned, see DESIGN.md section 3); no claim is made"
 
 
